@@ -436,6 +436,10 @@ class Machine:
                         return Result(OK, ptr, events)
                     inval = data[ptr]
                     seen.clear()
+                elif advanced:
+                    # the transition had moved the pointer on ahead of a yield / finish among its actions, but the byte is not consumed
+                    # after all: the out-of-space handler gets to see it, so the pointer stays on it
+                    ptr -= 1
                 continue
             if t.is_fallthrough:
                 if target_known:
